@@ -45,13 +45,15 @@ class World:
         if case == 'triaxial':
             self.base['property_y'] = rng.uniform(0.5, 2.0, shp)
             self.base['property_z'] = rng.uniform(0.5, 2.0, shp)
-        srcs = {'Tx-1': emg3d.TxElectricDipole((-120., 10., 20., 10., 5.)),
-                'Tx-2': emg3d.TxElectricDipole((90., -30., -15., 60., -10.))}
-        recs = {'Rx-a': emg3d.RxElectricPoint((150., 60., 30., 0., 0.)),
-                'Rx-b': emg3d.RxElectricPoint((-40., -80., -50., 45., 10.)),
-                'Rx-c': emg3d.RxMagneticPoint((10., 90., 40., 20., 0.))}
+        # keys deliberately not in alphabetical order (dictionaries keep
+        # insertion order; the data arrays are positional)
+        srcs = {'Tx-2': emg3d.TxElectricDipole((-120., 10., 20., 10., 5.)),
+                'Tx-1': emg3d.TxElectricDipole((90., -30., -15., 60., -10.))}
+        recs = {'Rx-c': emg3d.RxElectricPoint((150., 60., 30., 0., 0.)),
+                'Rx-a': emg3d.RxElectricPoint((-40., -80., -50., 45., 10.)),
+                'Rx-b': emg3d.RxMagneticPoint((10., 90., 40., 20., 0.))}
         self.survey = emg3d.Survey(sources=srcs, receivers=recs,
-                                   frequencies=[1.0, 2.5],
+                                   frequencies={'f-2': 1.0, 'f-1': 2.5},
                                    noise_floor=1e-17, relative_error=0.05)
         self.pairs = [(s, f) for s in self.survey.sources.keys()
                       for f in self.survey.frequencies.keys()]
